@@ -261,9 +261,21 @@ func (s *c25Scenario) openAll() {
 	}
 }
 
+// c25Stalled is set once a deadlock-by-construction watchdog has fired: the
+// remaining scenarios of the run would each wait for the same watchdog.
+var c25Stalled int32
+var c25SlowViolations int32
+
 func (s *c25Scenario) abort(fp, what string, wit interface{}) {
 	s.r.Violation(fp, what, s.desc, wit)
 	s.aborted = true
+	if fp == "dispatch:blocked" || fp == "wallets:blocked-by-other-wallet" {
+		atomic.StoreInt32(&c25Stalled, 1)
+	}
+	if fp == "release:wallet-stays-busy" && atomic.AddInt32(&c25SlowViolations, 1) >= 3 {
+		// each further occurrence costs >= 3 s and adds nothing
+		atomic.StoreInt32(&c25Stalled, 1)
+	}
 	s.openAll()
 }
 
@@ -574,6 +586,9 @@ func (s *c25Scenario) finish() {
 		if n >= 100000 && time.Since(t0) >= 3*time.Second {
 			s.r.Violation("quiescence:actions-not-empty",
 				fmt.Sprintf("%d wallet(s) still marked busy at quiescence (every action has returned from execute)", left), s.desc, nil)
+			if atomic.AddInt32(&c25SlowViolations, 1) >= 3 {
+				atomic.StoreInt32(&c25Stalled, 1)
+			}
 			return
 		}
 		runtime.Gosched()
@@ -801,6 +816,10 @@ func c25Workload(t *testing.T, part string, stamped bool, repsQuick, repsThoroug
 			sc := c25GenScript(c25Rand(r, i))
 			desc := sc.desc()
 			if rp := r.Replay(); rp != "" && rp != desc {
+				return
+			}
+			if atomic.LoadInt32(&c25Stalled) != 0 {
+				r.Count("scenarios_skipped_after_repeated_watchdog_violation", 1)
 				return
 			}
 			s, sig := c25Run(r, sc, desc, stamped)
